@@ -637,6 +637,7 @@ def run_c09(c):
             add(edv, edr, "c:dtw_cc.ub_euclidean", lambda: dtw_cc.ub_euclidean(a_a, b_a))
         add(ub, ubr, "py:distance[only_ub]", lambda: dtw.distance(a_l, b_l, only_ub=True, **kw))
         add(ub, ubr, "c:distance_fast[only_ub]", lambda: dtw.distance_fast(a_n, b_n, only_ub=True, **kw))
+        add(ub, ubr, "c:distance[only_ub,use_c]", lambda: dtw.distance(a_a, b_a, only_ub=True, use_c=True, **kw))
         dref = enc_guarded(c, lambda: dtw.distance(a_l, b_l, **kw))
         kw0 = {k: v for k, v in kw.items() if k != "penalty"}
         d0 = enc_guarded(c, lambda: dtw.distance(a_l, b_l, **kw0)) if len(c["s1"]) != len(c["s2"]) else dref
@@ -650,6 +651,8 @@ def run_c09(c):
         add(ub, ubr, "py:dtw_ndim.distance[only_ub]", lambda: dtw_ndim.distance(a_n, b_n, only_ub=True, **kwn))
         add(ub, ubr, "c:dtw_ndim.distance_fast[only_ub]",
             lambda: dtw_ndim.distance_fast(a_n, b_n, only_ub=True, **kwn))
+        add(ub, ubr, "c:dtw_ndim.distance[only_ub,use_c]",
+            lambda: dtw_ndim.distance(a_n, b_n, only_ub=True, use_c=True, **kwn))
         dref = enc_guarded(c, lambda: dtw_ndim.distance(a_n, b_n, **kwn))
         kw0 = {k: v for k, v in kwn.items() if k != "penalty"}
         d0 = enc_guarded(c, lambda: dtw_ndim.distance(a_n, b_n, **kw0)) if len(c["s1"]) != len(c["s2"]) else dref
